@@ -116,6 +116,17 @@ func c11Exec(w *c11World, prog []c11Node) (flat []c11Flat, mustReject bool, ambi
 				own := ids(n.NH)
 				flat = append(flat, c11Flat{Method: "POST", Path: prefix + n.Path, IDs: append(append([]int{}, outer...), own...)})
 				w.f.Post(n.Path, w.hs(own)...)
+			case "routes-multi3":
+				// three method names as separate leading strings
+				own := ids(n.NH)
+				all := append(append([]int{}, outer...), own...)
+				for _, mm := range []string{"GET", "POST", "PUT"} {
+					flat = append(flat, c11Flat{Method: mm, Path: prefix + n.Path, IDs: all})
+				}
+				if autoHead {
+					ambiguousHead = true
+				}
+				w.f.Routes(n.Path, "GET", append([]flamego.Handler{"POST", "PUT"}, w.hs(own)...)...)
 			case "routes-comma", "routes-multi":
 				own := ids(n.NH)
 				all := append(append([]int{}, outer...), own...)
@@ -349,6 +360,14 @@ func c11FlattenOnly(prog []c11Node) (flat []c11Flat, mustReject, amb bool) {
 				}
 			case "post":
 				flat = append(flat, c11Flat{Method: "POST", Path: prefix + n.Path, IDs: append(append([]int{}, outer...), ids(n.NH)...)})
+			case "routes-multi3":
+				all := append(append([]int{}, outer...), ids(n.NH)...)
+				for _, mm := range []string{"GET", "POST", "PUT"} {
+					flat = append(flat, c11Flat{Method: mm, Path: prefix + n.Path, IDs: all})
+				}
+				if autoHead {
+					amb = true
+				}
 			case "routes-comma", "routes-multi":
 				all := append(append([]int{}, outer...), ids(n.NH)...)
 				flat = append(flat, c11Flat{Method: "GET", Path: prefix + n.Path, IDs: all}, c11Flat{Method: "POST", Path: prefix + n.Path, IDs: all})
@@ -480,6 +499,14 @@ func c11Programs(thorough bool) [][]c11Node {
 					[]c11Node{{Kind: "group", Path: gp, NH: 1, Children: []c11Node{{Kind: lf, Path: frag, NH: 1}}}},
 					[]c11Node{{Kind: "group", Path: gp, NH: 0, Children: []c11Node{{Kind: "group", Path: frag, NH: 1, Children: []c11Node{{Kind: lf, Path: "/a", NH: 1}}}}}})
 			}
+		}
+	}
+	// Routes with three method names as separate strings and one to three handlers, flat and in groups
+	for _, nh := range []int{1, 2, 3} {
+		for _, pth := range []string{"/a", "/{x}"} {
+			lf := c11Node{Kind: "routes-multi3", Path: pth, NH: nh}
+			progs = append(progs, []c11Node{lf}, []c11Node{{Kind: "group", Path: "/g", NH: 1, Children: []c11Node{lf}}},
+				[]c11Node{{Kind: "group", Path: "/g", NH: 2, Children: []c11Node{lf, {Kind: "get", Path: "/v", NH: 1}}}}, []c11Node{{Kind: "autohead-on"}, lf})
 		}
 	}
 	// separate Combo calls for one path (each with common handlers of its own), flat, in one group, and
